@@ -133,6 +133,11 @@ func Fetch(
 			return err
 		}
 
+		// A decoder can end cleanly on a record whose data is cut off (i.e. zstandard on an empty stream); the record itself has to be complete
+		if _, err := io.Copy(io.Discard, tr); err != nil {
+			return err
+		}
+
 		if err := verify(); err != nil {
 			return err
 		}
